@@ -34,6 +34,9 @@ pub enum Lay {
     Verif,
     /// a file with the same name as the bundled Probhat.json, in another directory, with some keys exchanged
     Twin,
+    /// the same twin file named by a relative path ("Probhat.json": a file of that name also exists in the data directory);
+    /// worker processes run with the twin's directory as working directory
+    Relative,
 }
 
 impl Lay {
@@ -43,6 +46,7 @@ impl Lay {
             Lay::Probhat => format!("{REPO}/data/Probhat.json"),
             Lay::Verif => format!("{VERIF}/layouts/verif.json"),
             Lay::Twin => format!("{VERIF}/layouts/twin/Probhat.json"),
+            Lay::Relative => "Probhat.json".to_string(),
         }
     }
     pub fn name(self) -> &'static str {
@@ -51,6 +55,7 @@ impl Lay {
             Lay::Probhat => "probhat",
             Lay::Verif => "verif",
             Lay::Twin => "twin",
+            Lay::Relative => "relative",
         }
     }
     pub fn from_name(s: &str) -> Option<Lay> {
@@ -59,6 +64,7 @@ impl Lay {
             "probhat" => Some(Lay::Probhat),
             "verif" => Some(Lay::Verif),
             "twin" => Some(Lay::Twin),
+            "relative" => Some(Lay::Relative),
             _ => None,
         }
     }
@@ -221,6 +227,11 @@ impl CfgSpec {
 }
 
 /// When set, configurations are built with XDG_DATA_HOME unset and HOME pointing two levels above the user root.
+/// Working directory of every process that drives riti (so that `Lay::Relative` names the twin layout).
+pub fn enter_working_directory() {
+    std::env::set_current_dir(format!("{VERIF}/layouts/twin")).expect("working directory");
+}
+
 pub static HOME_ENV: std::sync::atomic::AtomicBool = std::sync::atomic::AtomicBool::new(false);
 
 pub fn user_dir(root: &Path) -> PathBuf {
